@@ -133,6 +133,8 @@ def ext_kind(name):
     if n.endswith("::unwrap") or n.endswith("::expect") or n.endswith("Try>::branch") or "FromResidual" in n \
             or n.endswith("::unwrap_or") or n.endswith("::ok"):
         return "unwrap"
+    if n.endswith("bool>::then_some"):
+        return "then_some"
     if n.startswith("core::num::") or n.startswith("core::arch::") or n.startswith("core::core_arch::"):
         return "pure"
     if n.startswith("core::cmp::") or "PartialEq" in n or "PartialOrd" in n or n.endswith("::cmp") \
@@ -1046,6 +1048,18 @@ class FnAnalysis:
                     self.st_write(st, (r, trunc(pp + ("D",))), dl | extra, strong)
                     self.st_write(st, (r, trunc(pp + ("v0", 0))), pay | extra, strong)
                 self.write_dest(dest, EMPTY, st, p0, keep=True)
+            return
+        if kind == "then_some" and len(argv) == 2:
+            # bool::then_some(c, v): discriminant from c, payload from v (field-insensitive), like `if c { Some(v) } else { None }`
+            cells, strong, _ = self.cells_of(dest, st)
+            pay = argv[1][0] | self.pointee_labels(argv[1][1], st)
+            for (r, pp) in cells:
+                if strong:
+                    self.st_write(st, (r, pp), EMPTY, True)
+                self.st_write(st, (r, trunc(pp + ("D",))), argv[0][0] | extra, strong)
+                self.st_write(st, (r, trunc(pp + ("v1", 0))), pay | extra, strong)
+            if argv[1][1]:
+                self.write_dest(dest, EMPTY, st, argv[1][1], keep=True)
             return
         if kind == "cmp":
             allv = vals
